@@ -12,7 +12,8 @@ DTA  loki/transformations/transform_derived_types.py :: DerivedTypeArgumentsTran
        assumed_dim_or_none (bounds!)     D_array_lb0, D_alloc, D_alloc_lb0, D_alloc_size, D_array_whole
        _get_expanded_kernel_var_type     D_two_parents (intent in vs inout), D_kind (kind import via add_new_imports_kernel)
        non_expansion_map / whole use     D_whole_needed, D_spec_use (member in a declaration), D_in_associate
-       expand_call_arguments             K_keyword, K_mixed_keyword, K_call_twice, K_elem_actual, K_comp_actual, K_function
+       expand_call_arguments             K_keyword, K_mixed_keyword, K_call_twice, K_elem_actual, K_comp_actual, K_function,
+                                         K_function_keyword
        successors / 3-level              M_mid_use, M_mid_keyword, M_mid_comp_down   (depth 3 only)
 TBP  same file :: TypeboundProcedureCallTransformation (duplicate_typebound_kernels in {False, True}), and the pipeline
      TBP -> DTA(all_derived_types=True); real Scheduler over kern -> tbmod/tbmod2 procedures (2 levels; T_nested: 3 levels).
@@ -164,6 +165,7 @@ DTA_BLOCKS = {
     'K_elem_actual': dict(kern='  tv(1) = t\n  tv(2) = u\n  call lev1(n, tv(1), tv(2), ts, r)\n  r = r + tv(1)%x + tv(1)%w(3)\n'),
     'K_comp_actual': dict(kern='  call lev1s(t%s, r)\n', need=['lev1s']),
     'K_function': dict(kern='  r = r + flev(t)\n', need=['flev']),
+    'K_function_keyword': dict(kern='  r = r + flev(t=u) * 2.0\n', need=['flev']),
     'M_mid_use': dict(mid='    t%w(1) = t%w(1) + 0.5\n    r = r + t%x\n', depth3=True),
     'M_mid_keyword': dict(midcall='    call lev2(n=n, t=t, u=u, ts=ts, r=r)\n', depth3=True),
     'M_mid_comp_down': dict(mid='    call lev2s(t%s, r)\n', need=['lev2s'], depth3=True),
